@@ -225,6 +225,14 @@ func cmdS10(args []string) {
 	impMap := map[string]*types.Package{}
 	collectImports(p.Types, impMap)
 	imp := &mapImporter{m: impMap, fallback: importer.ForCompiler(token.NewFileSet(), "gc", nil)}
+	// a rewritten copy that does not even parse (a composite literal proposed in a statement header)
+	// is C09's business like one that does not type-check
+	for _, r := range rws {
+		if _, err := parser.ParseFile(token.NewFileSet(), "x.go", "package main\n\n"+r.src, 0); err != nil {
+			dropped[r.name] = true
+			cnt.Add("rewrites_not_compiling_c09s_business", 1)
+		}
+	}
 	for iter := 0; iter < 6; iter++ {
 		var b strings.Builder
 		b.WriteString("package main\n\nimport (\n\t\"bytes\"\n\t\"fmt\"\n\t\"strings\"\n\t\"time\"\n)\n\nvar _ = bytes.Index\nvar _ = fmt.Sprint\nvar _ = strings.Index\nvar _ = time.Now\n\n")
